@@ -327,6 +327,13 @@ module N =
                  | N0 -> false
                  | Npos q -> Pos.eqb p q)
 
+  (** val leb : n -> n -> bool **)
+
+  let leb x y =
+    match compare x y with
+    | Gt -> false
+    | _ -> true
+
   (** val ltb : n -> n -> bool **)
 
   let ltb x y =
@@ -410,6 +417,12 @@ let rec fold_right f a0 = function
 let rec existsb f = function
 | [] -> false
 | a :: l0 -> (||) (f a) (existsb f l0)
+
+(** val forallb : ('a1 -> bool) -> 'a1 list -> bool **)
+
+let rec forallb f = function
+| [] -> true
+| a :: l0 -> (&&) (f a) (forallb f l0)
 
 (** val seq : nat -> nat -> nat list **)
 
@@ -2216,6 +2229,18 @@ let inc_register =
 let get_reg =
   gets head_reg
 
+(** val alloc_emit : (n -> instr) -> n m **)
+
+let alloc_emit mk =
+  bind inc_register (fun _ ->
+    bind get_reg (fun r ->
+      bind (upd_frames (map (push_ctx (mk r)))) (fun _ -> ret r)))
+
+(** val bump : n m **)
+
+let bump =
+  bind inc_register (fun _ -> get_reg)
+
 (** val emit : instr -> unit m **)
 
 let emit i =
@@ -2463,9 +2488,8 @@ let function_call g e f args =
     bind (call_args e f fd.f_params O args []) (fun ps ->
       match ps with
       | Some params ->
-        bind inc_register (fun _ ->
-          bind get_reg (fun r ->
-            bind (emit (ICall (fd, params, r))) (fun _ -> ret (Some fd.f_ty))))
+        bind (alloc_emit (fun x -> ICall (fd, params, x))) (fun _ ->
+          ret (Some fd.f_ty))
       | None -> ret None)
   | None ->
     bind
@@ -2478,28 +2502,26 @@ let function_call g e f args =
 let expr_value g e = function
 | EVName x ->
   bind (lookup_value x.iname) (fun vs ->
-    bind inc_register (fun _ ->
-      bind get_reg (fun r ->
-        match vs with
-        | Some val0 ->
-          bind (emit (IExprValue (val0, r))) (fun _ ->
-            ret (Some { r_ty = val0.v_ty; r_val = (RReg r) }))
-        | None ->
-          (match alookup x.iname g.g_consts with
-           | Some c ->
-             bind (emit (IExprConst (c, r))) (fun _ ->
-               ret (Some { r_ty = c.c_ty; r_val = (RReg r) }))
-           | None ->
-             bind
-               (add_error { e_kind = EValueNotFound; e_val = (Some x.iname);
-                 e_loc = (iloc x) }) (fun _ -> ret None)))))
+    match vs with
+    | Some val0 ->
+      bind (alloc_emit (fun x0 -> IExprValue (val0, x0))) (fun r ->
+        ret (Some { r_ty = val0.v_ty; r_val = (RReg r) }))
+    | None ->
+      (match alookup x.iname g.g_consts with
+       | Some c ->
+         bind (alloc_emit (fun x0 -> IExprConst (c, x0))) (fun r ->
+           ret (Some { r_ty = c.c_ty; r_val = (RReg r) }))
+       | None ->
+         bind bump (fun _ ->
+           bind
+             (add_error { e_kind = EValueNotFound; e_val = (Some x.iname);
+               e_loc = (iloc x) }) (fun _ -> ret None))))
 | EVPrim p -> ret (Some { r_ty = (SPrim p.pv_ty); r_val = (RPrim p) })
 | EVCall (f, args) ->
   bind (function_call g e f args) (fun t ->
     match t with
     | Some ty ->
-      bind inc_register (fun _ ->
-        bind get_reg (fun r -> ret (Some { r_ty = ty; r_val = (RReg r) })))
+      bind bump (fun r -> ret (Some { r_ty = ty; r_val = (RReg r) }))
     | None -> ret None)
 | EVField (x, a) ->
   bind (lookup_value x.iname) (fun vs ->
@@ -2521,14 +2543,11 @@ let expr_value g e = function
                    else (match attr_lookup a.iname attrs with
                          | Some p ->
                            let (idx, aty) = p in
-                           bind inc_register (fun _ ->
-                             bind get_reg (fun r ->
-                               bind (emit (IExprStruct (val0, idx, r)))
-                                 (fun _ ->
-                                 bind inc_register (fun _ ->
-                                   bind get_reg (fun r' ->
-                                     ret (Some { r_ty = aty; r_val = (RReg
-                                       r') }))))))
+                           bind
+                             (alloc_emit (fun x0 -> IExprStruct (val0, idx,
+                               x0))) (fun _ ->
+                             bind bump (fun r' ->
+                               ret (Some { r_ty = aty; r_val = (RReg r') })))
                          | None ->
                            bind
                              (add_error { e_kind = EValueNotStructField;
@@ -2545,10 +2564,8 @@ let expr_value g e = function
           (iloc x) }) (fun _ -> ret None))
 | EVSub e0 -> e e0
 | EVExt (t, tag) ->
-  bind inc_register (fun _ ->
-    bind get_reg (fun r ->
-      bind (emit (IExt (tag, r))) (fun _ ->
-        ret (Some { r_ty = (sem_of_ty t); r_val = (RReg r) }))))
+  bind (alloc_emit (fun x -> IExt (tag, x))) (fun r ->
+    ret (Some { r_ty = (sem_of_ty t); r_val = (RReg r) }))
 
 (** val expr_chain :
     globals -> (expr -> eres option m) -> eres -> links -> eres option m **)
@@ -2564,10 +2581,8 @@ let rec expr_chain g e left = function
       then bind
              (add_error { e_kind = EWrongExpressionType; e_val = (Some
                (type_name left.r_ty)); e_loc = loc10 }) (fun _ -> ret None)
-      else bind inc_register (fun _ ->
-             bind get_reg (fun r ->
-               bind (emit (IExprOp (op, left, rgt, r))) (fun _ ->
-                 expr_chain g e { r_ty = rgt.r_ty; r_val = (RReg r) } rest')))
+      else bind (alloc_emit (fun x -> IExprOp (op, left, rgt, x))) (fun r ->
+             expr_chain g e { r_ty = rgt.r_ty; r_val = (RReg r) } rest')
     | None -> ret None)
 
 (** val expression_body :
@@ -2671,21 +2686,19 @@ let condition_expression g fuel =
                            EConditionExpressionNotSupported; e_val = (Some
                            (type_name lr.r_ty)); e_loc = loc10 }) (fun _ ->
                          get_reg)
-                  else bind inc_register (fun _ ->
-                         bind get_reg (fun reg ->
-                           bind (emit (ICondExpr (lr, rr, cmp, reg)))
-                             (fun _ ->
-                             bind
-                               (match next with
-                                | Some p ->
-                                  let (op, c') = p in
-                                  bind get_reg (fun lreg ->
-                                    bind (condition_expression0 c')
-                                      (fun rreg ->
-                                      bind inc_register (fun _ ->
-                                        bind get_reg (fun reg' ->
-                                          emit (ILogic (op, lreg, rreg, reg'))))))
-                                | None -> ret ()) (fun _ -> get_reg))))
+                  else bind
+                         (alloc_emit (fun x -> ICondExpr (lr, rr, cmp, x)))
+                         (fun _ ->
+                         bind
+                           (match next with
+                            | Some p ->
+                              let (op, c') = p in
+                              bind get_reg (fun lreg ->
+                                bind (condition_expression0 c') (fun rreg ->
+                                  bind
+                                    (alloc_emit (fun x -> ILogic (op, lreg,
+                                      rreg, x))) (fun _ -> ret ())))
+                            | None -> ret ()) (fun _ -> get_reg))
            | None ->
              bind
                (add_error { e_kind = EConditionIsEmpty; e_val = None; e_loc =
@@ -3279,3 +3292,40 @@ let run p =
      let (errors, roots) = p0 in
      ROk { o_errors = errors; o_globals = d.gs_globals; o_gstack =
      d.gs_stack; o_fns = roots })
+
+(** val def_reg : instr -> n option **)
+
+let def_reg = function
+| IExprValue (_, r) -> Some r
+| IExprConst (_, r) -> Some r
+| IExprStruct (_, _, r) -> Some r
+| IExprOp (_, _, _, r) -> Some r
+| ICall (_, _, r) -> Some r
+| ICondExpr (_, _, _, r) -> Some r
+| ILogic (_, _, _, r) -> Some r
+| IExt (_, r) -> Some r
+| _ -> None
+
+(** val defs : instr list -> n list **)
+
+let defs c =
+  flat_map (fun i -> match def_reg i with
+                     | Some r -> r :: []
+                     | None -> []) c
+
+(** val increasing_from : n -> n list -> bool **)
+
+let rec increasing_from prev = function
+| [] -> true
+| r :: l' -> (&&) (N.ltb prev r) (increasing_from r l')
+
+(** val chk_C09_root : block -> bool **)
+
+let chk_C09_root b =
+  (&&) (increasing_from N0 (defs b.b_ctx))
+    (forallb (fun r -> N.leb r b.b_reg) (defs b.b_ctx))
+
+(** val chk_C09 : output -> bool **)
+
+let chk_C09 o =
+  forallb chk_C09_root o.o_fns
